@@ -155,6 +155,55 @@ def run(ctx, res):
                                        "encoded_head": e[:64], "encoded_len": len(e), "match": {"op": "b64_encode", "size": "huge"}})
                 break
         res.nontrivial.add(("huge", n))
+    # --- structured lengths. An encoder that works in slices (or a decoder that does) goes wrong, if it does, at lengths that are
+    # multiples of its slice size - which is some "round" number: a multiple of 3 times a power of two (48 KiB = 3 * 2^14), a power
+    # of two or of ten, a MIME line (57 / 45 / 60 bytes), a page. Random and 2^n +- d lengths never meet those. The sweep is
+    # deterministic: k * m and its neighbours for every such m up to the cap, over slices of one buffer derived from a short seed;
+    # judged by the property's own predicates on the real code (alphabet, canonical length, round trip).
+    CAP = (1 << 22) if ctx.quick() else (1 << 24) + 8
+    lat_seed = rng.bytes_(8).hex()
+    BIG = hashlib.shake_256(bytes.fromhex(lat_seed)).digest(CAP + 2)
+    units = set()
+    for j in range(0, 25):
+        units.update((3 << j, 1 << j, 9 << j, 5 << j, 57 << j, 45 << j, 15 << j))
+    units.update(10 ** j for j in range(1, 8))
+    units.update(3 * 10 ** j for j in range(1, 8))
+    lattice = set()
+    for m in units:
+        for k in range(1, 9):
+            if k * m <= CAP:
+                lattice.add(k * m)
+                if k * m > 4096 and (k <= 3):
+                    lattice.update((k * m - 1, k * m + 1))
+    # every multiple of 3 KiB up to 1.5 MiB as well (slice sizes that are not so round)
+    lattice.update(range(3072, (3 << 19) + 1, 3072))
+    view = memoryview(BIG)
+    lat_bad = 0
+    for n in sorted(lattice):
+        if n > CAP:
+            continue
+        b = view[:n]
+        e = bytes_to_base64url(bytes(b) if n % 2 else b)
+        res.evaluations += 1
+        res.count("lattice")
+        problem = None
+        if len(e) != (4 * n + 2) // 3:
+            problem = f"encoding of {n} bytes has {len(e)} characters, not {(4 * n + 2) // 3}"
+        elif not ALPHABET.match(e):
+            problem = "encoding leaves the url-safe alphabet"
+        else:
+            c = code_decode(e + ("=" * (-len(e) % 4) if n % 5 == 0 else ""))
+            if c["k"] != "accept" or bytes.fromhex(c["record"]) != b:
+                problem = f"decode(encode(b)) != b ({c['k']}: {str(c.get('msg') or c.get('nonlib') or '')[:80]})"
+        if problem:
+            lat_bad += 1
+            if lat_bad <= 3:
+                res.violations.append({"why": problem + f" for a value of {n} bytes", "encoded_head": e[:64], "encoded_len": len(e),
+                                       "input": {"shake256_seed": lat_seed, "len": n,
+                                                 "reproduce": f"hashlib.shake_256(bytes.fromhex('{lat_seed}')).digest({CAP + 2})[:{n}]"},
+                                       "match": {"op": "b64_encode", "size": "lattice"}})
+    res.nontrivial.add(("lattice", len(lattice)))
+    del BIG, view
     # --- the same bytes behind buffers whose items are not single bytes (memoryviews cast to 16/32/64-bit items or to signed
     # bytes / chars, multi-dimensional views, array.array): a buffer's content is its bytes, whatever its `len()` counts
     import array
